@@ -100,6 +100,11 @@ func checkSilentFacts(c ExecCase) (v *Violation, f silentFacts) {
 			// which error comes first depends on the member order of this run
 			continue
 		}
+		if open && hasPredicate(pr.tree.Root) {
+			// lax short-circuits (exists, existential comparisons) make even the value of a
+			// predicate depend on the member order of the run: the two runs are not comparable
+			continue
+		}
 		switch p.v.Class {
 		case EOK:
 			// (b) a run that succeeds without WithSilent returns the identical result with it
@@ -276,7 +281,8 @@ func TestC08(t *testing.T) {
 		ev.Check(rt, "c08.silent", c, v)
 	})
 	ev.rapidProp(t, "leak", func(rt *rapid.T) {
-		g := &pgen{t: rt, c: GenCfg{MaxNodes: 10, HardErrPct: 10}.withDefaults()}
+		// no .keyvalue(): its ids depend on the base object, which the filter changes (C16 covers ids)
+		g := &pgen{t: rt, c: GenCfg{MaxNodes: 10, HardErrPct: 10, NoKeyvalue: true}.withDefaults()}
 		g.budget = 2 + g.n(8, "size")
 		chain := g.chain(gctx{}, 1+g.n(3, "chainlen"))
 		g.budget = 2 + g.n(6, "csize")
